@@ -48,16 +48,14 @@ fn main() {
             println!("VERIF_SEED={seed} property={} tier={}", prop.id(), tier.name());
             let limit = arg_val(&args, "--limit").and_then(|s| s.parse().ok());
             let mut selftest = None;
+            let mut selftest_ok = true;
             if !args.iter().any(|a| a == "--no-selftest") {
                 let n = match tier {
                     Tier::Quick => 300,
                     Tier::Thorough => 3000,
                 };
                 let (v, ok) = runner::selftest(prop.as_ref(), tier, seed, n.min(prop.cases(tier)), workers);
-                if !ok {
-                    eprintln!("HARNESS-ERROR determinism self-test failed: {v}");
-                    std::process::exit(2);
-                }
+                selftest_ok = ok;
                 selftest = Some(v);
             }
             let a = runner::RunArgs {
@@ -69,7 +67,16 @@ fn main() {
                 workdir: None,
                 write_evidence: limit.is_none() || args.iter().any(|a| a == "--evidence"),
             };
-            std::process::exit(runner::check(prop.as_ref(), &a, selftest));
+            let st = selftest.clone();
+            let mut code = runner::check(prop.as_ref(), &a, selftest);
+            if !selftest_ok {
+                // a violation found by the run stands; a clean run is not believed without determinism
+                eprintln!("HARNESS-ERROR determinism self-test failed: {}", st.unwrap_or_default());
+                if code == 0 {
+                    code = 2;
+                }
+            }
+            std::process::exit(code);
         }
         "selftest" => {
             let prop = get_prop();
